@@ -74,6 +74,8 @@ def run(prog, chk):
     from props import C18, C10
     chk.rule(C18.template_source, prog, chk)  # "never makes the transform fail": an id'd element is registered before it is needed by <use> / clip-path
     chk.rule(C10.retry_progress, prog, chk)  # ... and a forward <use href> / clip-path is retried whatever resolved in between
+    from props import C11
+    chk.rule(C11.number_reader_rejects_only_what_parse_rejects, prog, chk)  # "never makes the transform fail": a number SVG allows (`.5`, `+5`) is read
     from props import strops
     chk.rule(strops.check_for, prog, chk, "C04")
     chk.rule(strops.check_number_formatting, prog, chk)  # results are exact up to the 3-decimal *output* rounding  # A14.str-ops: how this property's strings are cut up is a reviewed, frozen inventory
